@@ -320,7 +320,7 @@ def make_history(rng, world, with_faults):
     fams = sorted({e["family"] for e in pool if e["family"] != "broken"})
     byfam = {f: [e for e in pool if e["family"] == f] for f in fams}
     broken = [e for e in pool if e["family"] == "broken"]
-    n = rng.randrange(2, 15)
+    n = rng.randrange(2, 15) if rng.random() < 0.93 else rng.randrange(30, 45)
     focus = rng.choice(fams)
     focus_in = rng.choice([e["pref"] for e in byfam[focus]])
     focus_mode = rng.choice(MODES)
@@ -401,12 +401,15 @@ def _cmp_outcome(oc):
     return oc[:2] if oc[0] == "exc" else oc
 
 
+NOFILE_HEADROOM = 24  # descriptors a history (and each reference) may have open beyond what the interpreter already holds
+
+
 def check_history(files, ops, runner, seed=0, want_events=False):
     """Run the history in one process, then compare every operation with its pristine reference.
 
     Returns (violations, info)."""
     runner.reset(files) if runner.state else runner.materialise(files)
-    res = runner.run(ops, seed, {"signatures": True})
+    res = runner.run(ops, seed, {"signatures": True, "nofile_headroom": NOFILE_HEADROOM})
     # replay the file state for the references
     runner.reset(files)
     viols = []
@@ -419,7 +422,7 @@ def check_history(files, ops, runner, seed=0, want_events=False):
             runner.apply_write(op)
             prev_tag = op.get("_tag", "write")
             continue
-        ref_oc, _fired, _ev = runner.reference(op, seed)
+        ref_oc, _fired, _ev = runner.reference(op, seed, {"nofile_headroom": NOFILE_HEADROOM})
         got = res["outcomes"][k]
         checked += 1
         sig = res["signatures"][k] if res.get("signatures") else "?"
